@@ -865,3 +865,30 @@ Theorem relocate_exec_rethrow_only_handler_refuted :
              mem (hp s') (1, 0) = Live 10.
 Proof. exact RelocFacts.relocate_exec_rethrow_only_refuted. Qed.
 Print Assumptions relocate_exec_rethrow_only_handler_refuted.
+
+(* ---- final round: the whole pvRelocateExec(.., false_type) INTERPRETED from the AST facts (loop shape -> copy_from, order of loop and executor call in
+   the try block, handler, presence of the final Destroy); relocate_exec_interp = that interpretation (the nothrow overload stays the hand model's).
+   General strong guarantee (every count, executor, category, schedule) for the interpreted function: *)
+Theorem relocate_exec_interpreted_strong :
+  forall (src dst : nat -> loc) (n : nat) (exec : M unit) (fp : loc -> Prop) (P : heap -> Prop) (R : heap -> heap -> Prop),
+    exec_spec exec fp P R -> (forall j, j < n -> ~ fp (src j) /\ ~ fp (dst j)) ->
+    forall c s, range_pre src dst n (hp s) -> P (hp s) ->
+      wp (RelocFacts.relocate_exec_interp c src dst n exec) s
+         (fun _ s' => moved_range src dst n fp (hp s) (hp s') /\ R (hp s) (hp s'))
+         (fun s' => unchanged (hp s) (hp s')).
+Proof. exact RelocFacts.relocate_exec_interp_strong. Qed.
+Print Assumptions relocate_exec_interpreted_strong.
+
+(* refinement: at the current headers the interpretation IS the hand model (which the micro-correspondence ties to the real function) *)
+Theorem relocate_exec_interpretation_is_the_model :
+  forall c src dst n e, RelocFacts.relocate_exec_interp c src dst n e = relocate_exec c src dst n e.
+Proof. exact RelocFacts.interp_at_current_headers. Qed.
+Print Assumptions relocate_exec_interpretation_is_the_model.
+
+(* other interpretable shapes are refuted: executor call before the copy loop (what it created survives a failing copy), no final Destroy (sources stay) *)
+Theorem relocate_exec_executor_first_refuted :
+  exists s', RelocFacts.interp_relocexec (fun j => (0, j)) (fun j => (1, j)) 2 (b <- alloc 1 ;; ret tt) RelocFacts.body_expected RelocFacts.try_exec_first
+               RelocFacts.loop_expected Gen_C04Facts.relocexec_catch (mkS RelocFacts.rx_heap [false; false; true] []) = (Exn, s') /\
+             alive (hp s') 2 = true.
+Proof. exact RelocFacts.interp_exec_first_refuted. Qed.
+Print Assumptions relocate_exec_executor_first_refuted.
